@@ -92,6 +92,19 @@ PROPS = {
                      "where ABP and uBO differ on ||host ending mid-label the uBO/implementation-documented reading is the reference"],
         floors=(3_000_000, 100_000, 100_000_000, 400_000),
     ),
+    "C03": simple(
+        rule="case = (rule line with an option set, request description); exhaustive part: every option set with <= 2 type atoms out of 22 "
+             "(11 types, positive/negated) x document x party {-,3p,~3p,1p,~1p} x important x rule kind {plain, ||host^ implicit-all, "
+             "@@ exception, |ws://, |http://, |https://} x 22 request type strings x 7 initiators (same host, subdomain, deep subdomain, "
+             "unrelated, multi-label suffix, absent, unparseable) x 6 schemes (http, https, ws, wss, ftp, data); random part: domain= lists "
+             "with 1-6 included/excluded entries (parents, children, duplicates) combined with random types/party. The pattern always matches "
+             "the URL, so options decide. evaluation = per-rule matcher and single-rule engine vs the O-options interpreter; non-trivial = "
+             "reference says the rule applies; distinct = hash of (line, url, source, type) (bounded sample per rule; all counted in observations).",
+        assumptions=["an absent/unparseable initiator cannot satisfy an inclusion list and vacuously satisfies an exclusion-only list (ABP)",
+                     "exceptions apply to document requests without $document (uBO-style, as documented in the code)",
+                     "`|ws://` covers both websocket schemes here; the ws-vs-wss distinction is judged (and recorded) under C02"],
+        floors=(2_000_000, 20_000, 4_000_000, 40_000),
+    ),
 }
 
 # ---------------------------------------------------------------------------------------------
@@ -117,6 +130,14 @@ MANIFEST_TEXT = {
                 "degenerate spellings are excluded from verdicts exactly as the quantifier says.",
         "technique": "runtime monitoring: exhaustive-small-space + random differential against a reference matcher; metamorphic weakening relations",
         "design_ref": "DESIGN.md §4.2",
+    },
+    "C03": {
+        "text": "Runtime differential monitor: the real per-rule matcher and a single-rule engine are compared with an independent interpreter of the "
+                "option AST over the exhaustively enumerated type x party x scheme x initiator space (all option sets with up to two type atoms), "
+                "plus random initiator-domain lists and match-case on regex rules.",
+        "note": "The pattern side is fixed so that options decide; reference choices where the statement is silent are listed in the evidence assumptions.",
+        "technique": "runtime monitoring: exhaustive cross-product + random differential against a reference option interpreter",
+        "design_ref": "DESIGN.md §4.3",
     },
 }
 
